@@ -25,7 +25,14 @@ def files():
     fd = G.new_file("acme/lab/v1/lab.proto", "acme.lab.v1", deps=G.STD_DEPS + ["acme/store/v1/resources.proto"])
     for name, pat in PATTERNS.items():
         G.add_message(fd, name, [G.F("name", 1, G.T.TYPE_STRING)], resource=(f"lab.example.com/{name}", pat))
-    G.add_message(fd, "Req", [G.F("name", 1, G.T.TYPE_STRING)] +
+    # two file-level resource definitions (no message of their own), reached through references only
+    from google.api import resource_pb2
+    for typ, pat in (("lab.example.com/Publisher", "publishers/{publisher}"), ("lab.example.com/Author", "authors/{author}/pens/{pen}")):
+        rd = fd.options.Extensions[resource_pb2.resource_definition].add()
+        rd.type = typ
+        rd.pattern.append(pat)
+    G.add_message(fd, "Req", [G.F("name", 1, G.T.TYPE_STRING), G.F("publisher_ref", 41, G.T.TYPE_STRING, resource_ref="lab.example.com/Publisher"),
+                              G.F("author_ref", 42, G.T.TYPE_STRING, resource_ref="lab.example.com/Author")] +
                   [G.F(f"r{i}", i + 2, G.T.TYPE_STRING, resource_ref=f"lab.example.com/{n}") for i, n in enumerate(PATTERNS)] +
                   [G.F("bucket_ref", 40, G.T.TYPE_STRING, resource_ref="store.example.com/Bucket")])
     svc = G.add_service(fd, "Lab")
@@ -100,6 +107,13 @@ def scenarios():
             failures.append({"resource": "store.example.com/Bucket", "what": "no path helpers for a referenced resource of an imported package"})
         elif C.parse_bucket_path(C.bucket_path(bucket="b1")) != {"bucket": "b1"}:
             failures.append({"resource": "store.example.com/Bucket", "what": "helpers are not inverse"})
+        # file-level resource definitions: every referenced one gets its pair of helpers
+        for nm, seg in (("publisher", {"publisher": "p1"}), ("author", {"author": "a1", "pen": "n2"})):
+            cases += 1
+            if not (hasattr(C, f"{nm}_path") and hasattr(C, f"parse_{nm}_path") and hasattr(lab_v1.LabAsyncClient, f"parse_{nm}_path")):
+                failures.append({"resource": nm, "what": "no path helpers for a referenced file-level resource definition"})
+            elif getattr(C, f"parse_{nm}_path")(getattr(C, f"{nm}_path")(**seg)) != seg:
+                failures.append({"resource": nm, "what": "helpers of a file-level resource definition are not inverse"})
         # common resources
         for cn, args in (("project", {"project": "p1"}), ("location", {"project": "p1", "location": "l-2"}), ("folder", {"folder": "f"}),
                          ("organization", {"organization": "o"}), ("billing_account", {"billing_account": "b"})):
